@@ -132,6 +132,19 @@ func init() {
 				}
 				c.Inc("fault:history-floods-the-zone-cache:configured")
 			}
+			if y := c.L("cfg:y"); flood == 0 && y.Chance(1, 3) {
+				// what the pooled tables still hold matters where a decode stops early: a generated
+				// file cut exactly at one of its structure boundaries as probe
+				for i := 0; i < 4; i++ {
+					if o := drawOp(c, y, true); len(o.fmap) > 0 {
+						b := boundsFromMap(o.fmap, len(o.data))
+						o.trunc = b[y.Intn(len(b))]
+						probe = o
+						c.Inc("probe:probe-cut-at-structure-boundary")
+						break
+					}
+				}
+			}
 			nh := cfg.Intn(7)
 			var hist, later []*opCase
 			for i := 0; i < nh; i++ {
